@@ -185,8 +185,15 @@ def _round_significant(value: float, sig_digits: int) -> float:
 
     if value == 0.0:
         return 0.0
+    if not math.isfinite(value):
+        # exp(1000) or power(10, 400) overflow to infinity: nothing to round
+        return value
     d = math.ceil(math.log10(abs(value)))
-    return round(value, sig_digits - d)
+    try:
+        return round(value, sig_digits - d)
+    except OverflowError:
+        # rounding the largest doubles up would leave the float range
+        return value
 
 
 def _normalize_scalar_value(raw_value: Any) -> Any:
